@@ -113,25 +113,37 @@ func ruleAssociativity(c *Ctx, t *tables, a *parserAnchors) {
 		c.unres("climbing loop", token.NoPos, "could not find the binding-power readers / the loop comparing the requested level with the peek level")
 		return
 	}
-	// (a) strict comparison, true edge continues the loop
-	_, xIsParam := cmp.X.(*ssa.Parameter)
-	strict := (xIsParam && cmp.Op == token.LSS) || (!xIsParam && cmp.Op == token.GTR)
-	nonStrict := (xIsParam && cmp.Op == token.LEQ) || (!xIsParam && cmp.Op == token.GEQ)
+	// (a) the loop continues exactly on requested < peek: the comparison may be written either way round and either as
+	// the continue test (req < peek) or as the exit test (req >= peek)
+	pol, strict, known := cmpSaysLess(cmp)
 	key := fnName(loop) + ": loop comparison"
-	switch {
-	case strict:
-		c.ok(key, cmp.Pos(), "continues only while requested < peek binding power (strict)")
-	case nonStrict:
-		c.bad(key, cmp.Pos(), "the climbing loop continues on requested <= peek: every operator becomes right-associative (a-b-c parses as a-(b-c))")
-	default:
-		c.unres(key, cmp.Pos(), "comparison %s of the requested level with the peek level is not a recognised form", cmp.Op)
-	}
-	// the infix application is under the comparison's true edge
 	var cmpBlock *ssa.BasicBlock
 	for _, b := range loop.Blocks {
-		if iff := blockIf(b); iff != nil && iff.Cond == ssa.Value(cmp) {
-			cmpBlock = b
+		if iff := blockIf(b); iff != nil {
+			cond := iff.Cond
+			neg := false
+			for {
+				if u, ok := cond.(*ssa.UnOp); ok && u.Op == token.NOT {
+					cond, neg = u.X, !neg
+					continue
+				}
+				break
+			}
+			if cond == ssa.Value(cmp) {
+				cmpBlock = b
+				if neg {
+					pol = !pol
+				}
+			}
 		}
+	}
+	switch {
+	case !known:
+		c.unres(key, cmp.Pos(), "comparison %s of the requested level with the peek level is not a recognised form", cmp.Op)
+	case strict:
+		c.ok(key, cmp.Pos(), "continues only while requested < peek binding power (strict)")
+	default:
+		c.bad(key, cmp.Pos(), "the climbing loop continues on requested <= peek: every operator becomes right-associative (a-b-c parses as a-(b-c))")
 	}
 	applied := 0
 	allInstrs(loop, func(b *ssa.BasicBlock, _ int, in ssa.Instruction) {
@@ -154,7 +166,7 @@ func ruleAssociativity(c *Ctx, t *tables, a *parserAnchors) {
 			return
 		}
 		applied++
-		c.check(cmpBlock != nil && condEdgeDominates(cmpBlock, true, b), fmt.Sprintf("%s: infix application #%d under the comparison", fnName(loop), applied), call.Pos(), "an infix operator is applied only when requested < peek", "an infix operator is applied on a path that did not pass the level comparison")
+		c.check(cmpBlock != nil && condEdgeDominates(cmpBlock, pol, b), fmt.Sprintf("%s: infix application #%d under the comparison", fnName(loop), applied), call.Pos(), "an infix operator is applied only when requested < peek", "an infix operator is applied on a path that did not pass the level comparison")
 	})
 	if applied == 0 {
 		c.unres(fnName(loop)+": infix application", loop.Pos(), "no call that applies an infix table entry found in the loop")
@@ -220,6 +232,36 @@ func ruleAssociativity(c *Ctx, t *tables, a *parserAnchors) {
 			c.check(good && (ownLevel || len(consts) > 0), key, pos, fmt.Sprintf("left-associative: right operand parsed at the operator's own level %d", own), fmt.Sprintf("left-associative operator %s (level %d) parses its right operand at %v: grouping differs from JavaScript", t.tc.name(k), own, consts))
 		}
 	}
+}
+
+// cmpSaysLess normalises the loop comparison: the loop's continue condition "requested < peek" holds exactly when the
+// comparison evaluates to pol (strict) — or "requested <= peek" (strict == false).
+func cmpSaysLess(cmp *ssa.BinOp) (pol, strict, ok bool) {
+	_, xIsParam := cmp.X.(*ssa.Parameter)
+	op := cmp.Op
+	if !xIsParam { // peek OP requested  ==  requested OP' peek
+		switch op {
+		case token.LSS:
+			op = token.GTR
+		case token.GTR:
+			op = token.LSS
+		case token.LEQ:
+			op = token.GEQ
+		case token.GEQ:
+			op = token.LEQ
+		}
+	}
+	switch op {
+	case token.LSS:
+		return true, true, true
+	case token.GEQ:
+		return false, true, true
+	case token.LEQ:
+		return true, false, true
+	case token.GTR:
+		return false, false, true
+	}
+	return false, false, false
 }
 
 func ownLevelOrder(c *Ctx, t *tables, a *parserAnchors, f *ssa.Function, curFn *ssa.Function) string {
@@ -346,9 +388,10 @@ func loopCuts(c *Ctx, t *tables, a *parserAnchors) (*ssa.Function, []loopCut, bo
 		if !ok {
 			return
 		}
+		pol, _, _ := cmpSaysLess(cmp)
 		passed := false
 		for _, pf := range facts {
-			if pf.at.kind == atCmp && pf.at.bin == cmp && !pf.at.neg {
+			if pf.at.kind == atCmp && pf.at.bin == cmp && pf.at.neg == !pol {
 				passed = true
 			}
 		}
